@@ -249,19 +249,27 @@ def run_e2e(report, n, rng):
     # the same through the real command line: "reuse off" by flag and by file stores copies separately, the
     # default shares them
     srcs, fam, kinds = directed_sets()[1]
-    for fmt, via, tol in (("glyf_colr_1", "flag", -1.0), ("picosvg", "file", -1.0), ("glyf_colr_0", "file", 0.1)):
-        over = dict(color_format=fmt, upem=1000, ascender=800, descender=-200, width=1000, reuse_tolerance=tol, keep_glyph_names=True)
-        case = dict(kind="e2e", format=fmt, reuse_tolerance=tol, built_by="command line, options by " + via, sources=[s_[1] for s_ in srcs])
+    base = dict(upem=1000, ascender=800, descender=-200, width=1000, keep_glyph_names=True)
+    plans = [("glyf_colr_1", "flag", -1.0, {}), ("picosvg", "file", -1.0, {}), ("glyf_colr_0", "file", 0.1, {}),
+             # sharing asked for in a build directory where the same sources were just built without it (and the reverse)
+             ("glyf_colr_1", "flag", 0.1, dict(before=(dict(base, color_format="glyf_colr_1", reuse_tolerance=-1.0), None))),
+             ("picosvg", "flag", -1.0, dict(before=(dict(base, color_format="picosvg", reuse_tolerance=0.1), None))),
+             # ... and next to another configuration over the same files that asks for the opposite
+             ("glyf_colr_1", "file", 0.1, dict(companion=(dict(base, color_format="glyf_colr_1", reuse_tolerance=-1.0), None))),
+             ("glyf_colr_0", "file", -1.0, dict(companion=(dict(base, color_format="glyf_colr_0", reuse_tolerance=0.1), None)))]
+    for fmt, via, tol, extra in plans:
+        over = dict(base, color_format=fmt, reuse_tolerance=tol)
+        case = dict(kind="e2e", format=fmt, reuse_tolerance=tol, built_by="command line, options by " + via + "".join(", " + k for k in extra), sources=[s_[1] for s_ in srcs])
         try:
-            font, cfg, picos, _ = build.build_cli(over, srcs, via)
+            font, cfg, picos, _ = build.build_cli(over, srcs, via, **extra)
         except Exception as ex:
             case["error"] = str(ex)[-1200:]
             report_failure(report, f"cli_build_{fmt}", case)
             return
         g = e2e.glyph_for(font, srcs[0][2])
         ds = donors_otsvg(font, font.getGlyphID(g)) if fmt == "picosvg" else donors_colr(font, g)
-        report.count(("c19-cli", fmt, tol, via), True)
-        report.hist("e2e.format", fmt + " via command line")
+        report.count(("c19-cli", fmt, tol, via, tuple(extra)), True)
+        report.hist("e2e.format", fmt + " via command line" + "".join(", " + k for k in extra))
         if tol == -1.0 and len(set(ds)) != len(ds):
             case["problem"] = f"reuse disabled (-1) on the command line but shapes share an outline: {ds}"
             report_failure(report, f"cli_{fmt}", case)
